@@ -555,12 +555,19 @@ fn sys_run(a: &Args) -> anyhow::Result<String> {
             let mut bytes = vec![];
             MDBShardInfo::serialize_from(&mut bytes, &s).unwrap();
             let _ = std::fs::remove_file(MARK_BEGIN);
-            let r = silent(|| {
-                if seed % 2 == 0 {
-                    s.write_to_directory(&dir).map(|_| ()).map_err(|e| format!("{e:?}"))
-                } else {
-                    MDBShardFile::write_out_from_reader(&dir, &mut Cursor::new(bytes)).map(|_| ()).map_err(|e| format!("{e:?}"))
-                }
+            // the four ways a shard file comes into a directory: flush of a memory shard, copy from a reader, and
+            // the two exports (with expiration: how session shards reach the shard cache; keyed: global dedup)
+            let srcdir = tempfile::tempdir().unwrap();
+            let src = if seed % 4 >= 2 { s.write_to_directory(srcdir.path()).ok().and_then(|p| MDBShardFile::load_from_file(&p).ok()) } else { None };
+            let r = silent(|| match (seed % 4, &src) {
+                (0, _) => s.write_to_directory(&dir).map(|_| ()).map_err(|e| format!("{e:?}")),
+                (1, _) => MDBShardFile::write_out_from_reader(&dir, &mut Cursor::new(bytes)).map(|_| ()).map_err(|e| format!("{e:?}")),
+                (2, Some(sf)) => sf.export_with_expiration(&dir, std::time::Duration::from_secs(3600)).map(|_| ()).map_err(|e| format!("{e:?}")),
+                (_, Some(sf)) => sf
+                    .export_as_keyed_shard(&dir, MerkleHash::from([7, 7, 7, seed]), std::time::Duration::from_secs(3600), true, true, true)
+                    .map(|_| ())
+                    .map_err(|e| format!("{e:?}")),
+                _ => Err("source shard could not be prepared".to_string()),
             });
             let _ = std::fs::remove_file(MARK_END);
             r
